@@ -1,5 +1,5 @@
 #!/bin/bash
-# Build every check binary once from files on disk (offline). Warm the go build cache.
+# Build every claimed check binary once from files on disk (offline); warms the go build cache.
 set -u
 HERE="$(cd "$(dirname "$0")" && pwd)"
 cd "$HERE"
@@ -7,13 +7,16 @@ export GOFLAGS=-mod=mod GOPROXY=off GOSUMDB=off GOTOOLCHAIN=local
 mkdir -p bin evidence
 cp -f /repo/go.sum engine/go.sum 2>/dev/null || true
 rc=0
-(cd engine && go build -tags verif ./... ) || rc=1
-for d in engine/checks/*/; do
-  id=$(basename "$d")
+ids=$(python3 -c "
+import json
+print(' '.join(c['property_id'].lower() for c in json.load(open('MANIFEST.json'))['checks']))")
+for id in $ids; do
+  d="engine/checks/$id"
+  [ -d "$d" ] || { echo "setup: missing $d" >&2; rc=1; continue; }
   if [ -x "$d/build.sh" ]; then
-    VERIF_BIN="$HERE/bin/$id" VERIF_ID="$id" VERIF_REPO=/repo VERIF_ROOT="$HERE" VERIF_MODFLAGS="" "$d/build.sh" || rc=1
+    VERIF_BIN="$HERE/bin/$id" VERIF_ID="$id" VERIF_REPO=/repo VERIF_ROOT="$HERE" VERIF_MODFLAGS="" "$d/build.sh" || { echo "setup: build failed for $id" >&2; rc=1; }
   else
-    (cd engine && go build -tags verif -o "$HERE/bin/$id" "./checks/$id") || rc=1
+    (cd engine && go build -tags verif -o "$HERE/bin/$id" "./checks/$id") || { echo "setup: build failed for $id" >&2; rc=1; }
   fi
 done
 exit $rc
